@@ -1121,6 +1121,157 @@ fn run_json(sc: &str, kind: &str, r: &RunOut) -> Value {
 		"deviation": r.deviation, "preempt": r.preempt})
 }
 
+// ------------------------------------------------------------------ lifecycle: the updater THREAD against owner-API calls
+
+/// The updater thread of `api::Owner::start_updater` (thread name "wallet-updater") is parked at its
+/// k-th `wallet_lock!` acquisition; an owner-API call that takes the wallet mutex outside `wallet_lock!`
+/// (close_wallet, ...) is issued from another thread meanwhile; the updater is released shortly after.
+/// The call has to return: "no interleaving deadlocks" for the lock pair (wallet mutex, updater mutex).
+struct LState {
+	armed: bool,
+	target: u32,
+	count: u32,
+	parked: bool,
+	release: bool,
+}
+struct LGate {
+	m: StdMutex<LState>,
+	cv: Condvar,
+}
+lazy_static! {
+	static ref LG: LGate = LGate {
+		m: StdMutex::new(LState { armed: false, target: 0, count: 0, parked: false, release: false }),
+		cv: Condvar::new(),
+	};
+}
+fn lgate() {
+	if std::thread::current().name() != Some("wallet-updater") {
+		return;
+	}
+	let mut st = LG.m.lock().unwrap();
+	if !st.armed {
+		return;
+	}
+	st.count += 1;
+	if st.count == st.target {
+		st.parked = true;
+		LG.cv.notify_all();
+		while !st.release {
+			st = LG.cv.wait(st).unwrap();
+		}
+		st.parked = false;
+		st.armed = false;
+	}
+}
+
+fn run_lifecycle(out: &mut Out, root: &str) {
+	use grin_wallet_api::Owner;
+	let ops = ["close_wallet", "stop_updater_then_close_wallet", "retrieve_summary_info", "set_active_account", "accounts"];
+	let kmax = arg_u64("kmax", 14) as u32;
+	let wait_s = arg_u64("lifecycle_wait", 12);
+	libwallet::verif_hooks::set_before_lock(Some(Arc::new(lgate)));
+	// (the updater thread is spawned by the API: it has no thread-local chain type)
+	grin_core::global::init_global_chain_type(grin_core::global::ChainTypes::AutomatedTesting);
+	let dir = format!("{}/lifecycle", root);
+	let mut s = Scen::new(&dir);
+	let w = s.add_wallet("w", None, false);
+	let cp = s.add_wallet("cp", None, false);
+	s.mine(w, 5);
+	s.mine(cp, 3);
+	let _ = owner::retrieve_summary_info(s.wallets[w].inst.clone(), None, &None, true, 1);
+	// a pending send, so that the refresh has kernels and outputs to look up
+	{
+		let args = InitTxArgs {
+			src_acct_name: None,
+			amount: 1_000_000_000,
+			minimum_confirmations: 1,
+			max_outputs: 500,
+			num_change_outputs: 1,
+			selection_strategy_is_use_all: false,
+			..Default::default()
+		};
+		let _ = s.with(w, |b, m| {
+			let sl = owner::init_send_tx(b, m, args, false)?;
+			owner::tx_lock_outputs(b, m, &sl)
+		});
+	}
+	let mut stuck = false;
+	'outer: for op in ops.iter() {
+		for k in 1..=kmax {
+			s.reopen(w);
+			let o = Arc::new(Owner::new(s.wallets[w].inst.clone(), None));
+			{
+				let mut st = LG.m.lock().unwrap();
+				*st = LState { armed: true, target: k, count: 0, parked: false, release: false };
+			}
+			let _ = o.start_updater(None, Duration::from_millis(40));
+			// wait until the updater thread is parked at its k-th acquisition
+			let t0 = Instant::now();
+			let parked = {
+				let mut st = LG.m.lock().unwrap();
+				while !st.parked && t0.elapsed() < Duration::from_secs(arg_u64("park_wait", 20)) {
+					let (g, _) = LG.cv.wait_timeout(st, Duration::from_millis(200)).unwrap();
+					st = g;
+				}
+				st.parked
+			};
+			let count_seen = LG.m.lock().unwrap().count;
+			let (tx, rx) = std::sync::mpsc::channel::<String>();
+			let o2 = o.clone();
+			let opn = op.to_string();
+			let h = std::thread::Builder::new()
+				.name("lifecycle-op".into())
+				.spawn(move || {
+					let r = match opn.as_str() {
+						"close_wallet" => o2.close_wallet(None).map(|_| ()),
+						"stop_updater_then_close_wallet" => o2.stop_updater().and_then(|_| o2.close_wallet(None)),
+						"retrieve_summary_info" => o2.retrieve_summary_info(None, false, 1).map(|_| ()),
+						"set_active_account" => o2.set_active_account(None, "default"),
+						_ => o2.accounts(None).map(|_| ()),
+					};
+					let _ = tx.send(match r {
+						Ok(_) => "ok".to_owned(),
+						Err(e) => format!("err: {}", e),
+					});
+				})
+				.unwrap();
+			std::thread::sleep(Duration::from_millis(150));
+			{
+				let mut st = LG.m.lock().unwrap();
+				st.release = true;
+				st.armed = false;
+				LG.cv.notify_all();
+			}
+			let t1 = Instant::now();
+			let res = rx.recv_timeout(Duration::from_secs(wait_s));
+			let returned = res.is_ok();
+			out.line(&json!({"kind": "lifecycle", "op": op, "k": k, "parked": parked, "count": count_seen, "returned": returned,
+				"result": res.unwrap_or_else(|_| "no return".to_owned()), "ms": t1.elapsed().as_millis() as u64}));
+			if !returned {
+				// the wallet mutex is held for good: nothing more can be run in this process
+				stuck = true;
+				let _ = h;
+				break 'outer;
+			}
+			let _ = h.join();
+			let _ = o.stop_updater();
+			// the updater thread ends after its current pass (or with the error of a closed wallet)
+			let t2 = Instant::now();
+			while o.updater_running.load(std::sync::atomic::Ordering::Relaxed) && t2.elapsed() < Duration::from_secs(5) {
+				std::thread::sleep(Duration::from_millis(20));
+			}
+			std::thread::sleep(Duration::from_millis(120));
+		}
+	}
+	out.line(&json!({"kind": "lifecycle_end", "stuck": stuck}));
+	libwallet::verif_hooks::set_before_lock(None);
+	if stuck {
+		out.flush();
+		std::process::exit(0);
+	}
+	close_scen(s);
+}
+
 fn main() {
 	if std::env::var("C20_LOUD").is_err() { quiet_panics(); }
 	init_thread();
@@ -1144,6 +1295,12 @@ fn main() {
 	let root = format!("/tmp/vh_c20_{}", std::process::id());
 	let _ = std::fs::remove_dir_all(&root);
 	std::fs::create_dir_all(&root).unwrap();
+	if arg("mode").as_deref() == Some("lifecycle") {
+		run_lifecycle(&mut out, &root);
+		out.finish();
+		let _ = std::fs::remove_dir_all(&root);
+		return;
+	}
 	libwallet::verif_hooks::set_before_lock(Some(Arc::new(gate)));
 	let replay: Option<Value> = arg("replay").map(|p| serde_json::from_reader(std::fs::File::open(p).unwrap()).unwrap());
 
